@@ -323,15 +323,19 @@ def r19_a(ctx):
                 a0, a1, a2 = c.args[:3]
                 good_args = isinstance(a0, ast.Name) and a0.id == ch and isinstance(a1, ast.Name) and a1.id == idx
                 if good_args:
-                    # category: a constant CC member or the loop variable of the table scan
-                    try:
-                        v = Folder(repo, fd.module).ev(a2)
-                        good_args = isinstance(v, FEnumMember) and v.enum.name == table(ctx).alphabet.CC.name
-                    except Unfoldable:
-                        # the loop variable of the in-line table scan, or a helper that is that scan
-                        good_args = isinstance(a2, ast.Name) or (
-                            abstok.table_scan_helper(repo, fd.module, a2) is not None
-                            and isinstance(a2.args[0], ast.Name) and a2.args[0].id == ch)
+                    # category: a constant CC member, the loop variable of the table scan, a helper that is that scan,
+                    # or a conditional expression choosing between those
+                    def is_cat(a):
+                        if isinstance(a, ast.IfExp):
+                            return is_cat(a.body) and is_cat(a.orelse)
+                        try:
+                            v = Folder(repo, fd.module).ev(a)
+                            return isinstance(v, FEnumMember) and v.enum.name == alphabet(ctx).CC.name
+                        except Unfoldable:
+                            return isinstance(a, ast.Name) or (
+                                abstok.table_scan_helper(repo, fd.module, a) is not None
+                                and isinstance(a.args[0], ast.Name) and a.args[0].id == ch)
+                    good_args = is_cat(a2)
         rr.ob(ok and good_args, {'path': p['desc'], 'yields': len(ys)})
         if not ok:
             rr.fail(Finding('R19.a', 'category', 'categorize', 'loop path [%s]: %d yields%s' % (
